@@ -81,7 +81,7 @@ PROBES = ['success_seen', 'pipelined', 'validator_async',
           'hostbased_request', 'hostbased_success',
           'pop_restrict', 'agent_used', 'agent_fault_fired', 'cert_offered',
           'restrictions_checked', 'forced_command', 'forwarding_restricted',
-          'restrict_undecided']
+          'restrict_undecided', 'client_env_sent']
 
 PASSWORDS = {'alice': 'pw-alice', 'bob': 'pw-bob'}
 RESTRICTED = 'command="forced-cmd",no-pty,permitopen="dest:80"'
